@@ -1491,8 +1491,12 @@ fn epilogue<T: Elem>(w: &World<T>) {
     // C10: twin planners fed the linearised history must return transforms with bit-identical outputs
     if w.case.twin {
         let hist = w.history.lock().unwrap().clone();
+        // long histories are replayed by two independent twins: what a planner does once its caches are large may depend on
+        // state every planner draws for itself (hash keys), and each twin is one more draw
+        let rounds = if hist.len() > 100 { 2 } else { 1 };
+        for round in 0..rounds {
         let mut twins: Vec<Option<AnyPlanner<T>>> = w.case.planners.iter().map(|k| AnyPlanner::new(*k)).collect();
-        let mut rng = Rng::new(w.case.sched_seed ^ 0x7717);
+        let mut rng = Rng::new(w.case.sched_seed ^ 0x7717 ^ ((round as u64) << 40));
         for (hi, (h, orig)) in hist.iter().enumerate() {
             match h {
                 Hist::Drop { planner } => twins[*planner as usize] = None,
@@ -1530,6 +1534,7 @@ fn epilogue<T: Elem>(w: &World<T>) {
                     }
                 }
             }
+        }
         }
     }
 }
